@@ -94,6 +94,7 @@ class Probe(Task):
         self.executions = 0
         self.returned = False
         self.version = 1
+        self.echo = False
 
     def do(self, env, config):
         ctrl = vsched.CTRL if vsched.CTRL is not None else _NoController
@@ -117,6 +118,12 @@ class Probe(Task):
         self.returned = True
         kind = self.outcome
         update = expected_update(self.name, self.version)
+        if self.echo:
+            # a task that reads its own section, adds its results to a copy of it and returns
+            # the whole section: the copy carries the status (PENDING) and the clocks that the
+            # scheduler wrote there; what the scheduler writes at the end must prevail
+            own = env.get(self.name)
+            update[self.name] = dict(own if isinstance(own, dict) else {}, **update[self.name])
         if kind == 'done':
             return update, TaskStatus.DONE
         if kind == 'failed':
@@ -258,6 +265,8 @@ def build(case, run):
     graph; ``deps`` = [(task j, kind)] the group depends on, ``by`` = [(task i,
     kind)] depending on the group."""
     tasks = [Probe(f't{i}', case['outcomes'][i], run) for i in range(case['n'])]
+    for task in tasks:
+        task.echo = bool(case.get('echo'))
     hard, soft = deps_of(case)
     for i, task in enumerate(tasks):
         task.hard = [tasks[j] for j in sorted(hard[i])]
@@ -322,6 +331,8 @@ def shape_labels(case):
         labs.append('insertion-order-permuted')
     if case.get('prelude'):
         labs.append('backend-reused-after-other-graph')
+    if case.get('echo'):
+        labs.append('tasks-return-their-whole-section')
     if case.get('spurious'):
         labs.append('spurious-wakeups')
     if case.get('reloaded'):
@@ -529,6 +540,8 @@ def extras(draw, n):
     extra = {}
     if n >= 2 and draw(st.integers(0, 2)) == 0:
         extra['order'] = draw(st.permutations(list(range(n))))
+    if draw(st.integers(0, 5)) == 0:
+        extra['echo'] = True       # tasks return their whole own section (see Probe.do)
     if draw(st.integers(0, 7)) == 0:
         # Condition.wait may return without a notification after that many scheduling points
         extra['spurious'] = draw(st.sampled_from([2, 5, 15, 40]))
